@@ -7,7 +7,7 @@ import json
 import os
 import subprocess
 import tempfile
-from typing import Dict, Iterator, List, Optional
+from typing import Dict, Iterator, List, Optional, Tuple
 
 from .front_py import AnalysisError
 
@@ -48,6 +48,38 @@ def walk(n: CNode) -> Iterator[CNode]:
         x = stack.pop()
         yield x
         stack.extend(reversed(x.inner))
+
+
+def narrow_shifts(root: CNode) -> List[Tuple[CNode, int, str]]:
+    """`<<` computed in a type narrower than the integer type its value is converted to, with a shift count
+    that is not a compile-time constant: [(node, computed width, target type)].  E.g. `uint64_t m = 1 << (n - 1)`:
+    the shift is done in 32-bit int (undefined / truncated for counts >= 31) and only then widened."""
+    out = []
+    pm = parent_map(root)
+    for x in walk(root):
+        if x.kind != "BinaryOperator" or x.get("opcode") != "<<" or len(x.inner) != 2:
+            continue
+        w = int_width(x.desugared) or int_width(x.qtype)
+        if w is None or w >= 64:
+            continue
+        rhs = x.inner[1]
+        if not any(y.kind == "DeclRefExpr" or y.kind == "MemberExpr" for y in walk(rhs)):
+            continue  # constant count
+        cur = x
+        while id(cur) in pm and pm[id(cur)].kind == "ParenExpr":
+            cur = pm[id(cur)]
+        par = pm.get(id(cur))
+        tgt = None
+        if par is not None and par.kind == "ImplicitCastExpr" and par.get("castKind") == "IntegralCast":
+            tgt = par
+        elif par is not None and par.kind in ("CStyleCastExpr", "CXXStaticCastExpr", "CXXFunctionalCastExpr"):
+            tgt = par
+        if tgt is None:
+            continue
+        tw = int_width(tgt.desugared) or int_width(tgt.qtype)
+        if tw is not None and tw > w:
+            out.append((x, w, tgt.qtype))
+    return out
 
 
 def parent_map(n: CNode) -> Dict[int, CNode]:
